@@ -401,6 +401,37 @@ def c16(ctx):
     return merged
 
 
+def c18(ctx):
+    """Harness legs (in-memory oracle) + file-level oracle over the written files (O-PARSE)."""
+    import encaps_check
+    r = ctx.harness()
+    merged = ctx.chk.merge([r])
+    idx = os.path.join(ctx.work, "c18_files.jsonl")
+    blob = os.path.join(ctx.work, "c18_files.bin")
+    if not (os.path.exists(idx) and os.path.exists(blob)):
+        merged["inconclusive"] = merged["inconclusive"] or "file records missing"
+        return merged
+    res = encaps_check.check_records(idx, blob)
+    merged["evaluations"] += res["evaluations"]
+    merged["violations"] += list(res["violations"].values())
+    for k, v in res["counters"].items():
+        merged["counters"]["file:" + k] = merged["counters"].get("file:" + k, 0) + v
+    merged["counters"]["file:records_checked"] = res["records"]
+    merged["rules"].append("written file bytes parsed by oracles/ps35_parse.py: fragment parity, BOT vs item tag "
+                           "offsets, (7FE0,0003) vs fragment item lengths, Number of Frames")
+    if res["counters"].get("oracle_errors"):
+        merged["notes"].append("file oracle raised on %d records (not counted as violations): %s" % (
+            res["counters"]["oracle_errors"], res.get("oracle_error_sample")))
+    if not ctx.replay and res["records"] < 100:
+        merged["inconclusive"] = merged["inconclusive"] or "only %d written files reached the file oracle" % res["records"]
+    for f in (idx, blob):
+        try:
+            os.remove(f)
+        except OSError:
+            pass
+    return merged
+
+
 PROPS = {
     "C01": {"run": simple, "level": "exploration"},
     "C02": {"run": c02, "level": "exploration"},
@@ -420,6 +451,11 @@ PROPS = {
     "C16": {"run": c16, "level": "exploration",
             "assumptions": ["feature sets needing C/C++ toolchains (charls, openjpeg) are not built"]},
     "C17": {"run": simple, "level": "exploration"},
+    "C18": {"run": c18, "level": "exploration"},
+    "C19": {"run": simple, "level": "exploration"},
+    "C20": {"run": simple, "level": "exploration"},
+    "C21": {"run": simple, "level": "exploration"},
+    "C22": {"run": simple, "level": "exploration"},
     "C23": {"run": simple, "level": "exploration"},
     "C24": {"run": c24, "level": "exploration"},
     "C25": {"run": c25, "level": "exploration",
